@@ -15,9 +15,25 @@ import json
 import os
 import re
 import shutil
+import subprocess
 import time
 
-from vlib import BUILD, Check, RunnerPool, compile_job, driver, hexs, log
+from concurrent.futures import ThreadPoolExecutor
+
+import vlib
+from vlib import BUILD, Check, RunnerPool, compile_job, hexs, log
+
+
+def driver(lines, nproc=8):
+    """vlib.driver on several drv_import processes at once (order kept)."""
+    lines = list(lines)
+    if len(lines) < 400:
+        return vlib.driver(lines)
+    size = (len(lines) + nproc - 1) // nproc
+    chunks = [lines[i:i + size] for i in range(0, len(lines), size)]
+    with ThreadPoolExecutor(len(chunks)) as ex:
+        outs = list(ex.map(vlib.driver, chunks))
+    return [o for out in outs for o in out]
 
 AF_CUR, AF_SPEC = "1110", "0000"          # d9 d10 d8b d8: the code as found / the specified behaviour
 SWITCH_BIT = {"D9": 0, "D10": 1, "D8b": 2}
@@ -112,9 +128,15 @@ def expected_s(path):
     return "not a" if file_ext(path) == "css" else "2"
 
 
-def mk_case(entry, steps, files, lps=(), mode="mem", rooted=True, dirs=(), decoy=False, note=None):
+TAIL = 99          # step index of files that are candidates of the entry's second, sequential load
+
+
+def mk_case(entry, steps, files, lps=(), mode="mem", rooted=True, dirs=(), decoy=False, note=None, tail=()):
+    """`steps`: chain of nested loads starting in the entry; `tail`: loads the entry performs itself
+    afterwards (`@import "a"; @import "t";`), which must again be relative to the entry."""
     c = {"mode": mode, "rooted": rooted, "entry": entry, "lps": list(lps),
-         "steps": [list(s) for s in steps], "files": dict(files), "dirs": list(dirs), "decoy": decoy}
+         "steps": [list(s) for s in steps], "tail": [list(s) for s in tail],
+         "files": dict(files), "dirs": list(dirs), "decoy": decoy}
     if note:
         c["note"] = note
     return c
@@ -133,6 +155,8 @@ CORPUS = [
     mk_case("main.scss", [("import", "a")], {"a.scss": 1, "_a.scss": 1, "a.sass": 1}, note="ambiguous layout (excluded from P̂)"),
     mk_case("r/main.scss", [("import", "d/a"), ("use", "../b")], {"r/d/_a.sass": 1, "r/d/../b.css": 2, "r/b.css": 2},
             note="nested load relative to the imported file, `..` kept literally"),
+    mk_case("main.scss", [("import", "sub/a")], {"sub/a.scss": 1, "sub/t.scss": TAIL, "t.scss": TAIL, "sub/_t.import.sass": TAIL},
+            tail=[("import", "t")], note="second load of the entry is relative to the entry again, not to sub/"),
     mk_case("main.sass", [("use", "n"), ("import", "k")], {"lp1/n/_index.scss": 1, "lp1/n/k.css": 2, "k.scss": 2}, lps=["lp1"],
             note="index in load path, nested import relative to it"),
 ]
@@ -187,6 +211,18 @@ def gen_random(rng, mode="mem"):
                     files[f] = k
                     new_files.append(f)
         prev_dirs = [dirname(f) for f in new_files if file_ext(f) != "css"] or prev_dirs
+    tail = []
+    if rng.random() < 0.25:
+        base = rng.choice(["t", "t", "tt.x"]) + rng.choice(["", "", "", ".scss", ".sass"])
+        udir = rng.choice(UDIRS[:5])
+        tail = [("import", join(udir, base))]
+        nested_dirs = [d for d in dict.fromkeys(dirname(f) for f in files) if d != dirname(entry)]
+        for ri, root in enumerate([dirname(entry)] + lps + nested_dirs[:3]):
+            cands, decoys = names_for(join(root, udir), base)
+            n = pick_count(rng) if ri <= len(lps) else rng.choice([1, 2])      # traps next to the nested files
+            for f in rng.sample(cands, min(n, len(cands))):
+                if f not in files and f != entry:
+                    files[f] = TAIL
     if mode == "std":
         # a real tree cannot hold a file and a directory of the same name
         fs = sorted(files)
@@ -194,7 +230,8 @@ def gen_random(rng, mode="mem"):
             if any(g.startswith(f + "/") for g in fs):
                 del files[f]
         dirs = [d for d in dict.fromkeys(dirs) if d not in files]
-    return mk_case(entry, steps, files, lps=lps, mode=mode, dirs=dirs, rooted=(rng.random() < 0.85) or mode == "std")
+    return mk_case(entry, steps, files, lps=lps, mode=mode, dirs=dirs, tail=tail,
+                   rooted=(rng.random() < 0.85) or mode == "std")
 
 
 def gen_exhaustive(tier):
@@ -231,8 +268,23 @@ class Ctx:
         self.af_cur = AF_CUR                         # narrowed by detect_variant() when a witness went stale
 
     def cleanup(self):
-        shutil.rmtree(os.path.join(BUILD, self.root), ignore_errors=True)
-        shutil.rmtree(self.std_root, ignore_errors=True)
+        """Remove the decoy tree and the real-Fs trees.  Unlinking is slow on this volume (ext4 mounted
+        with `discard`), so the trees are renamed out of the way and removed by a detached `rm -rf`."""
+        doomed = []
+        for d in (os.path.join(BUILD, self.root), self.std_root):
+            if os.path.isdir(d):
+                try:
+                    os.rename(d, d + ".del")
+                    doomed.append(d + ".del")
+                except OSError:
+                    doomed.append(d)
+        if doomed:
+            try:
+                subprocess.Popen(["rm", "-rf"] + doomed, stdin=subprocess.DEVNULL, stdout=subprocess.DEVNULL,
+                                 stderr=subprocess.DEVNULL, start_new_session=True)
+            except OSError:
+                for d in doomed:
+                    shutil.rmtree(d, ignore_errors=True)
 
 
 def prefix_of(ctx, case):
@@ -257,7 +309,8 @@ def chain_line(af, pre, case):
     allf = [case["entry"]] + sorted(case["files"])
     return "import chain %s %s %s %s %s %s" % (
         af, P(pre, case["entry"]), lst([P(pre, l) for l in case["lps"]]), lst([P(pre, f) for f in allf]),
-        lst([P(pre, d) for d in case["dirs"]]), lst([step_tok(s) for s in case["steps"]]))
+        lst([P(pre, d) for d in case["dirs"]]),
+        "+".join([lst([step_tok(s) for s in case["steps"]])] + [step_tok(s) for s in case.get("tail", [])]))
 
 
 def parse_chain(ans):
@@ -286,6 +339,11 @@ def file_contents(case):
     def nxt(k):                      # statement performed by a file that is a candidate of step k (0 = entry)
         return (steps[k][0], steps[k][1], k + 1) if k < len(steps) else None
     out[case["entry"]] = content(case["entry"], nxt(0))
+    if case.get("tail"):             # further loads of the entry itself, after the first statement
+        sass = file_ext(case["entry"]) == "sass"
+        head, sep, rest = out[case["entry"]].partition("\n")
+        more = "\n".join(stmt(k, u, TAIL, sass) for k, u in case["tail"])
+        out[case["entry"]] = head + sep + more + "\n" + rest
     for f, k in case["files"].items():
         out[f] = content(f, nxt(k))
     return out
@@ -378,6 +436,46 @@ def same_obs(case, impl, model):
     return True
 
 
+def plan_walk(case, pre, results):
+    """For the i-th observed/model load (results[i] = 'L:path' | 'E') the (importer, step) it answers to:
+    the nested chain first (each step relative to the file just loaded; a CSS file or the last step ends
+    it), then the entry's own further loads.  None where the program performs no further load."""
+    entry = P(pre, case["entry"])
+    out, importer, j, t, in_tail = [], entry, 0, 0, False
+    for res in results:
+        if in_tail:
+            if t >= len(case.get("tail", [])):
+                out.append(None)
+                continue
+            out.append((entry, case["tail"][t]))
+            t += 1
+        else:
+            out.append((importer, case["steps"][j]))
+            if res.startswith("L:"):
+                importer = res[2:]
+                if file_ext(importer) == "css" or j == len(case["steps"]) - 1:
+                    in_tail = True
+                j += 1
+        if not res.startswith("L:"):
+            break
+    return out + [None] * (len(results) - len(out))
+
+
+def plan_complete(case, results):
+    """the observed loads are all the loads the program performs (it stops only at a failed load)"""
+    if results and results[-1] == "E":
+        return True
+    j, n = 0, 0
+    for res in results:                                   # nested chain
+        n += 1
+        j += 1
+        if file_ext(res[2:]) == "css" or j == len(case["steps"]):
+            break
+    else:
+        return False                                      # chain not finished (or nothing loaded at all)
+    return len(results) - n == len(case.get("tail", []))
+
+
 def make_disk_decoys(ctx, cases, models):
     """Real files in the runner's cwd at every path the search could probe for these cases (and
     which the in-memory Fs does not have): the result must not depend on them."""
@@ -386,15 +484,13 @@ def make_disk_decoys(ctx, cases, models):
         if not (case["decoy"] and case["mode"] == "mem" and case["rooted"] and models[ci]):
             continue
         pre = ctx.root
-        importer = P(pre, case["entry"])
-        for k, (res, _, _) in enumerate(models[ci][0]):
+        results = [r for r, _, _ in models[ci][0]]
+        for w in plan_walk(case, pre, results):
+            if w is None:
+                continue
             for af in (ctx.af_cur, AF_SPEC):
-                lines.append("import cands %s %s %s %s" % (af, importer, lst([P(pre, l) for l in case["lps"]]),
-                                                          step_tok(case["steps"][k])))
+                lines.append("import cands %s %s %s %s" % (af, w[0], lst([P(pre, l) for l in case["lps"]]), step_tok(w[1])))
                 owner.append(ci)
-            if not res.startswith("L:"):
-                break
-            importer = res[2:]
     n = 0
     for ci, ans in zip(owner, driver(lines) if lines else []):
         if not ans.startswith("ok "):
@@ -438,16 +534,15 @@ def evaluate(ctx, cases, count=True):
     dlines, dspan = [], []
     for ci, (case, pre, ob) in enumerate(zip(cases, pres, impls)):
         start = len(dlines)
-        if case["mode"] == "mem" and ob["steps"] is not None and len(ob["steps"]) <= len(case["steps"]):
+        walk = plan_walk(case, pre, [r for r, _ in ob["steps"]]) if ob["steps"] is not None else [None]
+        if case["mode"] == "mem" and None not in walk:
             allf = [case["entry"]] + sorted(case["files"])
-            importer = P(pre, case["entry"])
-            for k, (res, calls) in enumerate(ob["steps"]):
+            for (importer, step), (res, calls) in zip(walk, ob["steps"]):
                 dlines.append("import check %s %s %s %s %s %s %s %s" % (
                     AF_SPEC, importer, lst([P(pre, l) for l in case["lps"]]), lst([P(pre, f) for f in allf]),
-                    lst([P(pre, d) for d in case["dirs"]]), step_tok(case["steps"][k]), res, lst(calls)))
+                    lst([P(pre, d) for d in case["dirs"]]), step_tok(step), res, lst(calls)))
                 if res.startswith("L:"):
-                    importer = res[2:]
-                    dlines.append("import syntax " + importer)
+                    dlines.append("import syntax " + res[2:])
         dspan.append((start, len(dlines)))
     douts = driver(dlines) if dlines else []
     verdicts = []
@@ -473,7 +568,7 @@ def evaluate(ctx, cases, count=True):
             why.append(ob["anomaly"])
         if case["mode"] == "mem":
             a, b = dspan[ci]
-            if a == b and not ob["anomaly"]:
+            if a == b and not ob["anomaly"] and ob["steps"]:
                 why.append("more loads observed than the program performs")
             res_fail = False
             failing_checks = []
@@ -489,6 +584,8 @@ def evaluate(ctx, cases, count=True):
                     want = {"ok css": "not a"}.get(ans, "2")
                     if ob["status"] == "ok" and (unp, want) not in (ob["markers"] or []):
                         why.append(f"file {unp} not parsed with the syntax of its extension ({ans})")
+            if ob["steps"] is not None and not plan_complete(case, [r for r, _ in ob["steps"]]):
+                why.append("fewer loads observed than the program performs")
             last_e = bool(ob["steps"]) and ob["steps"][-1][0] == "E"
             if ob["status"] not in ("ok", "notfound") or (ob["status"] == "notfound") != last_e:
                 why.append(f"status {ob['status']} does not fit the loads observed")
@@ -579,11 +676,13 @@ def account(ck, v):
     if v["unsupported"]:
         ck.cov["unsupported_dropped"] += 1
         return
-    key = {k: case[k] for k in ("mode", "rooted", "entry", "lps", "steps", "dirs")}
+    key = {k: case.get(k) for k in ("mode", "rooted", "entry", "lps", "steps", "tail", "dirs")}
     key["files"] = sorted(case["files"].items())
     ck.count(key, v["nontrivial"])
     ck.hist("fs=" + case["mode"])
     ck.hist("steps=%d" % len(case["steps"]))
+    if case.get("tail"):
+        ck.hist("with-second-load-from-the-entry")
     ck.hist("kind=" + case["steps"][0][0])
     ck.hist("url=" + shape_of(case))
     ck.hist("load_paths=%d" % len(case["lps"]))
@@ -670,12 +769,13 @@ def run_plain(ctx):
 # --------------------------------------------------------------------------------------------
 
 def case_text(case):
-    return json.dumps({k: case[k] for k in ("mode", "rooted", "entry", "lps", "steps", "files", "dirs")}, sort_keys=True)
+    return json.dumps({k: case.get(k, []) for k in ("mode", "rooted", "entry", "lps", "steps", "tail", "files", "dirs")},
+                      sort_keys=True)
 
 
 def describe(v):
     case = v["case"]
-    d = {"case": {k: case[k] for k in ("mode", "rooted", "entry", "lps", "steps", "files", "dirs", "decoy")},
+    d = {"case": {k: case.get(k, []) for k in ("mode", "rooted", "entry", "lps", "steps", "tail", "files", "dirs", "decoy")},
          "source_files": file_contents(case), "impl_observation": v["impl"],
          "model_observation": v.get("model"), "specified_observation": v.get("spec"),
          "verdict": v["why"], "tags": v["tags"],
@@ -686,7 +786,7 @@ def describe(v):
 
 
 def size(case):
-    return len(case["files"]) + 3 * len(case["steps"]) + len(case["lps"])
+    return len(case["files"]) + 3 * len(case["steps"]) + 3 * len(case.get("tail", [])) + len(case["lps"])
 
 
 def bad(v):
@@ -708,9 +808,12 @@ def shrink(ctx, v):
             cands.append(c)
         for i in range(len(case["lps"])):
             cands.append(dict(case, lps=case["lps"][:i] + case["lps"][i + 1:]))
+        if case.get("tail"):
+            cands.append(dict(case, tail=[], files={g: s for g, s in case["files"].items() if s != TAIL}))
         if len(case["steps"]) > 1:
             k = len(case["steps"]) - 1
-            cands.append(dict(case, steps=case["steps"][:k], files={g: s for g, s in case["files"].items() if s <= k}))
+            cands.append(dict(case, steps=case["steps"][:k],
+                              files={g: s for g, s in case["files"].items() if s <= k or s == TAIL}))
         if not cands:
             break
         vs = evaluate(ctx, [dict(c, decoy=False) for c in cands], count=False)
@@ -763,8 +866,8 @@ def _run(ck, ctx, tier):
     cases = [dict(c) for c in CORPUS]
     cases += gen_exhaustive(tier)
     n_rand = 4000 if tier == "quick" else 200000
-    n_std = 250 if tier == "quick" else 4000
-    n_decoy = 500 if tier == "quick" else 8000
+    n_std = 200 if tier == "quick" else 3000
+    n_decoy = 400 if tier == "quick" else 6000
     rnd = [gen_random(rng) for _ in range(n_rand)]
     for c in rnd[:n_decoy]:
         c["decoy"] = c["rooted"]
@@ -857,7 +960,8 @@ def replay(path):
         rc = 0
         for case in cs:
             case = mk_case(case["entry"], case["steps"], case["files"], lps=case["lps"], mode=case["mode"],
-                           rooted=case["rooted"], dirs=case.get("dirs", ()), decoy=case.get("decoy", False))
+                           rooted=case["rooted"], dirs=case.get("dirs", ()), decoy=case.get("decoy", False),
+                           tail=case.get("tail", ()))
             v = evaluate(ctx, [case], count=False)[0]
             print("case   :", case_text(case))
             print("impl   :", json.dumps(v["impl"]))
